@@ -15,7 +15,9 @@ variable {p : ℕ} {o : Ops} {κ : ZMod p} {n : ℕ} {S : (ZMod p)[X]}
 cofactors `a`, `b` of `x^n` and the determinant `a v - b u` (a non-zero constant), which is what
 makes the returned cofactor primitive. `du`, `dv` are upper bounds of the degrees of `u`, `v`
 (`dv` is not always the exact degree: the scan of lines 673/690 never lowers it), `df`, `dg` are
-exact unless the vector is zero (then the degree is 0). -/
+exact unless the vector is zero (then the degree is 0). `b1`, `b2` are the degree bookkeeping of
+Euclid's algorithm (`deg t_i + deg r_{i-1} = n`) as inequalities; with `hm` they give
+`du ≤ n - n/2` at the return. -/
 structure Inv (p n : ℕ) (S : (ZMod p)[X]) (s : St) : Prop where
   lu : s.u.length = n
   lv : s.v.length = n
@@ -35,8 +37,7 @@ structure Inv (p n : ℕ) (S : (ZMod p)[X]) (s : St) : Prop where
   b2 : s.dv + s.df ≤ n
   tf : gd s.f s.df ≠ 0 ∨ s.df = 0
   tg : gd s.g s.dg ≠ 0 ∨ s.dg = 0
-  hb : (s.du ≤ n - n / 2 ∧ s.dv ≤ n - n / 2) ∨ (s.du = 0 ∧ gd s.v 0 = 0) ∨
-    (s.dv = 0 ∧ gd s.u 0 = 0)
+  hm : n / 2 ≤ s.df ∨ n / 2 ≤ s.dg
   gh : ∃ a b : (ZMod p)[X], ∃ c : ZMod p, c ≠ 0 ∧
     toPoly p s.f = a * X ^ n + toPoly p s.u * S ∧
     toPoly p s.g = b * X ^ n + toPoly p s.v * S ∧
@@ -50,11 +51,7 @@ theorem inv_swap {s : St} (h : Inv p n S s) : Inv p n S (swapIf s) := by
       { lu := h.lv, lv := h.lu, lf := h.lg, lg := h.lf, ru := h.rv, rv := h.ru, rf := h.rg,
         rg := h.rf, zu := h.zv, zv := h.zu, zf := h.zg, zg := h.zf, dfn := h.dgn, dgn := h.dfn,
         b1 := h.b2, b2 := h.b1, tf := h.tg, tg := h.tf
-        hb := by
-          rcases h.hb with ⟨x, y⟩ | x | x
-          · exact Or.inl ⟨y, x⟩
-          · exact Or.inr (Or.inr x)
-          · exact Or.inr (Or.inl x)
+        hm := h.hm.symm
         gh := ⟨b, a, -c, neg_ne_zero.mpr hc, e2, e1, by
           rw [map_neg]; linear_combination -e3⟩ }
   · exact h
@@ -297,10 +294,10 @@ theorem step_spec (ok : OpsOK o p κ) (hn : 2 ≤ n) {s : St} (h : Inv p n S s)
         b2 := by show s1.dv + s1.df ≤ n; rw [m.edf]; exact m.bv
         tf := by show gd s1.f s1.df ≠ 0 ∨ s1.df = 0; rw [m.ef, m.edf]; exact h.tf
         tg := t4
-        hb := by
+        hm := by
           left
-          show s1.du ≤ n - n / 2 ∧ s1.dv ≤ n - n / 2
-          rw [m.edu]; omega
+          show n / 2 ≤ s1.df
+          rw [m.edf]; exact hdf
         gh := by
           refine ⟨a, b - Q * a, c, hc, ?_, ?_, ?_⟩
           · show toPoly p s1.f = a * X ^ n + toPoly p s1.u * S
